@@ -110,6 +110,13 @@ ht2mjd(const unsigned int *cal, size_t nm, struct ymd_s h)
 	return MT(cal)[i] + (h.d - 1U);
 }
 
+static inline __attribute__((const, pure)) int
+__fdiv(int num, int den)
+{
+/* floor division for positive DEN, the type shifts can be negative */
+	return num / den - (num % den < 0);
+}
+
 static inline __attribute__((const, pure)) mjd_t
 hij2mjd(hij_typ_t t, hij_epo_t e, struct ymd_s h)
 {
@@ -118,8 +125,8 @@ hij2mjd(hij_typ_t t, hij_epo_t e, struct ymd_s h)
 	};
 	const unsigned int doy = m[h.m] + h.d;
 	const unsigned int cyc = h.y / 30U;
-	const unsigned int k = h.y % 30U;
-	const unsigned int z1 = cyc * 10631U + (k * 1063100U + tsh[t]) / 3000U + doy;
+	const int k = h.y % 30U;
+	const unsigned int z1 = cyc * 10631U + __fdiv(k * 1063100 + (int)tsh[t], 3000) + doy;
 	return z1 + epo[e] - 2400000U;
 }
 
@@ -183,12 +190,14 @@ mjd2hij(hij_typ_t t, hij_epo_t e, mjd_t j)
 /* integer only version of Gent's converter */
 	const unsigned int z = j + 2400000U - epo[e];
 	const unsigned int cyc = z / 10631U;
-	const unsigned int z1 = z % 10631U;
-	const unsigned int k = (3000U * z1 - tsh[t]) / 1063100U - !z1;
-	const unsigned int z2 = z1 - (((int)k * 1063100 + tsh[t]) / 3000) + !z1;
+	const int z1 = z % 10631U;
+	/* k is -1 on the last day of the previous cycle */
+	const int k = __fdiv(3000 * z1 - (int)tsh[t], 1063100);
+	const unsigned int z2 = z1 - __fdiv(k * 1063100 + (int)tsh[t], 3000);
 	/* output */
 	const unsigned int y = 30U * cyc + k;
-	const unsigned int m = (10000U * z2 + 285001U) / 295000U;
+	/* day 355 of an intercalary year is the 30th of month 12 */
+	const unsigned int m = z2 < 355U ? (10000U * z2 + 285001U) / 295000U : 12U;
 	const unsigned int d = z2 - (295001 * m - 290000U) / 10000U;
 	return (struct ymd_s){y, m, d};
 }
@@ -228,10 +237,10 @@ __hij_inty_p(hij_typ_t t, hij_epo_t UNUSED(e), unsigned int y)
  * type II:  2, 5, 7, 10, 13, 16, 18, 21, 24, 26 & 29 as intercalary years
  * type III: 2, 5, 8, 10, 13, 16, 19, 21, 24, 27 & 29 as intercalary years
  * type IV:  2, 5, 8, 11, 13, 16, 19, 21, 24, 27 & 30 as intercalary years */
-	const unsigned int k = y % 30U;
-	const unsigned int z1 = ((k * 1063100U + tsh[t]) / 3000U + 355U) % 10631U;
-	const unsigned int kr = (3000U * z1 - tsh[t]) / 1063100U - !z1;
-	return z1 - (((int)kr * 1063100 + tsh[t]) / 3000) + !z1 != 1;
+	const int k = y % 30U;
+	/* the year is intercalary if the next one starts 355 days later */
+	return __fdiv((k + 1) * 1063100 + (int)tsh[t], 3000) -
+		__fdiv(k * 1063100 + (int)tsh[t], 3000) == 355;
 }
 
 static __attribute__((const, pure)) inline unsigned int
